@@ -22,7 +22,7 @@ CLAIMED = {
              "with default (non-recursive, non-robust) attributes; "
              "spinlock acquire protocol (CAS FREE->HELD, expected value provably FREE at every evaluation, order >= ACQUIRE, "
              "loop left only on CAS success), release protocol (release store / full barrier), lock/unlock state-encoding "
-             "agreement, for the c11, sync and sim models; lock objects zero-filled at birth. " + DECIDES % "C01",
+             "agreement, for the c11, sync and sim models; lock objects zero-filled at birth; the native mutex is destroyed before its memory is released. " + DECIDES % "C01",
         technique="path-sensitive CFG dataflow over clang AST facts: wrapper-wiring check, reaching constant of the CAS expected value, memory-order lattice"),
     "C04": dict(
         text="Rules C04.1-C04.4 over all 16 p_atomic_* operations in the c11, sync and sim models (48 instances): symbolic "
@@ -39,13 +39,13 @@ CLAIMED = {
              "held mutex, is registered in the waiter field the waker tests, and is followed by a re-evaluation of the admission "
              "predicate before the lock is granted; readers are admitted only with the writer field known zero, writers only with the "
              "whole counter zero; field masks/shifts agree across all functions; unlock wakes what becomes grantable (read_cv only by "
-             "broadcast); the lock object is zero-filled at allocation (its counters are never stored by the constructor). " + DECIDES % "C02",
+             "broadcast); the lock object is zero-filled at allocation (its counters are never stored by the constructor); the native rwlock is destroyed before its memory is released. " + DECIDES % "C02",
         technique="wrapper-wiring check; term-valued path-sensitive dataflow with mutex typestate, epoch reset at condition waits, packed-field classification and wake-obligation check at returns"),
     "C03": dict(
         text="Rules C03.1-C03.3: wait/signal/broadcast call pthread_cond_wait/signal/broadcast on &cond->hdl, TRUE iff 0, no cross-wiring "
              "(a broadcast degenerating to signal is reported); the PMutex pointer cast to pthread_mutex_t* is justified by the record "
              "layout of struct PMutex_ (pthread_mutex_t at offset 0); the native mutex is the only lock state the mutex functions read "
-             "(pthread_cond_wait unlocks and relocks it behind the PMutex API, so any other state they consulted would be stale after a wait). " + DECIDES % "C03",
+             "(pthread_cond_wait unlocks and relocks it behind the PMutex API, so any other state they consulted would be stale after a wait); free destroys the native condition - which waits for woken waiters to leave - before releasing the memory. " + DECIDES % "C03",
         technique="wrapper-wiring check, cross-unit record-layout check, who-reads-field rule over the mutex unit's lock functions"),
     "C19": dict(
         text="Rules C19.1-C19.5 over every call site of an interruptible blocking call in the library (sem_open x2, sem_wait, shm_open x2, "
@@ -103,7 +103,7 @@ CLAIMED = {
              "finding (reported size of an existing segment depends on the opener's argument). " + DECIDES % "C08",
         technique="term-valued path-sensitive dataflow with lock typestate; linear-form normalisation of the space/copy identities over the finite set of position orderings"),
     "C05": dict(
-        text="Rules C05.1-C05.5 on puthread.c / puthread-posix.c (C05.3 includes: the native detach state handed to pthread_attr_setdetachstate agrees with the joinable flag on every path, and pthread_detach is never called afterwards; "
+        text="Rules C05.1-C05.5 on puthread.c / puthread-posix.c (C05.3 includes: the native detach state handed to pthread_attr_setdetachstate agrees with the joinable flag on every path - for 1, 0 and a true value other than 1 -, and pthread_detach is never called afterwards; "
              "C05.2 includes: p_uthread_free_internal is reached from p_uthread_unref only, the creating function never releases the handle of a thread it has started, and the native constructor releases it only "
              "after the last pthread_create on the path failed; C05.1 includes: p_uthread_init creates the creation spinlock and the TLS slot whenever they do not exist): native create and all initialising stores under the creation spinlock, "
              "the new thread reads creator-initialised fields only after passing it; created handles start with 2 references, adopted "
@@ -174,7 +174,7 @@ CLAIMED = {
              "documented conversion primitive and radix and return the converted number through no narrower type; the four line patterns, their order and conversion counts are the documented grammar "
              "table and the header pattern is applied only to lines that start with '[' and end with ']'; section names, keys and values reach "
              "their constructors only as trimmed text and the empty-quotes normalisation is made on the trimmed value; a line byte compared with a constant is read through a type that can hold the constant, and the byte-order-mark tests skip exactly the length of the "
-             "standard mark the line starts with (C16.8, byte-test form only); a hand-built string is terminated before it is read as one (C16.1). What the scanf patterns accept "
+             "standard mark the line starts with (C16.8, byte-test form only); a hand-built string is terminated before it is read as one and no clamp cuts below the longest line fgets delivers (C16.1). What the scanf patterns accept "
              "beyond that table agreement is not decided. " + DECIDES % "C16",
         technique="format-string conversion bounds against array types, single-producer who-calls rule, restricted guard dataflow typestate for line/file/section, format-table agreement with edge-cut dominance of the header guards, raw/trimmed typestate of the text buffers"),
     "C17": dict(
@@ -192,7 +192,7 @@ CLAIMED = {
              "summarised from the code); nothing is used, re-released or returned after its release; fresh objects handed to the silent "
              "list functions are reported (7 known findings); no raw allocator call outside pmem.c; a destructor handed a local, partially "
              "built object dereferences no member that is still NULL there (failed allocation or never stored since the zero fill) without a "
-             "test. The frame condition on pre-existing "
+             "test; a member holding the untested result of a fallible call reaches a dereferencing libc routine only behind a NULL test. The frame condition on pre-existing "
              "objects is not decided. " + DECIDES % "C18",
         technique="path-sensitive resource typestate with inferred acquire/release/ownership summaries; use-after-release typestate; who-may-call rule with positive control; bottom-up NULL-need summaries of destructors matched against per-path member facts at unwinding calls"),
     "C20": dict(
